@@ -29,9 +29,9 @@ SmallLaws ==
      /\ ToInt(ExactMul(x, y)) = xa * b
      /\ CmpD(x, y) = (IF xa < b THEN 0 - 1 ELSE IF xa = b THEN 0 ELSE 1)
      /\ (b # 0 /\ xa # 0 /\ (xa > 0) = (b > 0)) =>
-           /\ ToInt(Val(One(Arith("//", x, y)))) = (IF xa >= 0 THEN xa \div b ELSE (0 - xa) \div (0 - b))
-           /\ ToInt(Val(One(Arith("%", x, y)))) = (IF xa >= 0 THEN xa % b ELSE 0 - ((0 - xa) % (0 - b)))
-     /\ (b # 0 /\ (IF xa < 0 THEN 0 - xa ELSE xa) % (IF b < 0 THEN 0 - b ELSE b) = 0) => ToInt(Val(One(Arith("/", x, y)))) = (IF (xa >= 0) = (b > 0) THEN 1 ELSE 0 - 1) * ((IF xa < 0 THEN 0 - xa ELSE xa) \div (IF b < 0 THEN 0 - b ELSE b))
+           /\ ToInt(Val(One(DArith("//", x, y)))) = (IF xa >= 0 THEN xa \div b ELSE (0 - xa) \div (0 - b))
+           /\ ToInt(Val(One(DArith("%", x, y)))) = (IF xa >= 0 THEN xa % b ELSE 0 - ((0 - xa) % (0 - b)))
+     /\ (b # 0 /\ (IF xa < 0 THEN 0 - xa ELSE xa) % (IF b < 0 THEN 0 - b ELSE b) = 0) => ToInt(Val(One(DArith("/", x, y)))) = (IF (xa >= 0) = (b > 0) THEN 1 ELSE 0 - 1) * ((IF xa < 0 THEN 0 - xa ELSE xa) \div (IF b < 0 THEN 0 - b ELSE b))
      /\ ToInt(FloorD(FromInt(a, 0 - 1))) = a \div 10
      /\ ToInt(CeilD(FromInt(a, 0 - 1))) = 0 - ((0 - a) \div 10)
 
